@@ -4,6 +4,7 @@
  * mode=ref dir=<d>      : R (independent reference decoder) on every frame: R <id> <ok> <len> <xxh64> + feature events
  * The driver compares the tables across paths and build variants and against R. */
 #include "vparams.h"
+#include "vdict.h"
 #include "refdec.h"
 #include <dirent.h>
 
@@ -102,6 +103,29 @@ static void gen(const char* dir)
                 if (!ZSTD_isError(cs)) { spit(dir, id, "", dst, cs); spit(dir, id, ".src", x, pos); spit(dir, id, ".dict", dict, dl); id++; printf("STRADDLE\t%ld\t%d\n", i, how); }
                 ZSTD_freeCCtx(c); } }
         free(dict);
+    }
+    /* formatted dictionaries with unusual entropy tables and start repeat offsets other than 1/4/8 (assembler shared with C08 / C17), and tiny inputs whose first
+     * matches sit exactly at those repeat offsets: every decode path (raw dictionary buffer, DDict cold / warm / referenced) must start from the same history */
+    long const nfdict = v_opt_long("nfdict", 60);
+    for (long i = 0; i < nfdict; i++) {
+        size_t const cl = 64 + vr_u(&r, vr_chance(&r, 1, 2) ? 400 : 20000); uint8_t* content = (uint8_t*)malloc(cl); gen_data(&r, content, cl, vr_chance(&r, 1, 2) ? DF_TEXT : DF_RANDOM);
+        uint8_t* dict = (uint8_t*)malloc(cl + 4096); char feat[128]; size_t const dl = build_dict(&r, dict, cl + 4096, content, cl, feat, sizeof feat);
+        if (dl) { ZSTD_DDict* dd = ZSTD_createDDict(dict, dl); ZSTD_CDict* cd = ZSTD_createCDict(dict, dl, 3);
+            if (dd && cd) { uint32_t rep[3]; memcpy(rep, dict + dl - cl - 12, 12);
+                for (int t = 0; t < 3; t++) {
+                    uint8_t x[600]; ZSTD_Sequence sq[8]; size_t ns = 0, pos = 0; int const nseq = 1 + (int)vr_u(&r, 3);
+                    for (int q = 0; q < nseq; q++) { uint32_t const ll = (q == 0 && vr_chance(&r, 1, 2)) ? 0 : vr_u(&r, 5); vr_fill(&r, x + pos, ll); pos += ll;
+                        size_t const off = rep[vr_u(&r, 3)]; if (off == 0 || off > cl + pos) break; uint32_t const ml = 4 + vr_u(&r, 40);
+                        for (uint32_t k = 0; k < ml; k++) { size_t const from = pos + k; x[from] = (from < off) ? content[cl - (off - from)] : x[from - off]; }
+                        pos += ml; sq[ns].offset = (unsigned)off; sq[ns].litLength = ll; sq[ns].matchLength = ml; sq[ns].rep = 0; ns++; }
+                    {   uint32_t const tail = vr_u(&r, 20); vr_fill(&r, x + pos, tail); pos += tail; sq[ns].offset = 0; sq[ns].litLength = tail; sq[ns].matchLength = 0; sq[ns].rep = 0; ns++; }
+                    uint8_t dst[2048]; ZSTD_CCtx* c = ZSTD_createCCtx(); size_t cs; ZSTD_CCtx_setParameter(c, ZSTD_c_checksumFlag, 1); ZSTD_CCtx_loadDictionary(c, dict, dl);
+                    if (t == 0 && ns > 1) { ZSTD_CCtx_setParameter(c, ZSTD_c_blockDelimiters, ZSTD_sf_explicitBlockDelimiters); ZSTD_CCtx_setParameter(c, ZSTD_c_validateSequences, 1); ZSTD_CCtx_setParameter(c, ZSTD_c_searchForExternalRepcodes, ZSTD_ps_enable); ZSTD_CCtx_setParameter(c, ZSTD_c_compressionLevel, (int)vr_range(&r, 1, 9)); cs = ZSTD_compressSequences(c, dst, sizeof dst, sq, ns, x, pos); }
+                    else { ZSTD_CCtx_setParameter(c, ZSTD_c_compressionLevel, t == 1 ? (int)vr_range(&r, 13, 19) : (int)vr_range(&r, 1, 12)); cs = ZSTD_compress2(c, dst, sizeof dst, x, pos); }
+                    if (!ZSTD_isError(cs)) { spit(dir, id, "", dst, cs); spit(dir, id, ".src", x, pos); spit(dir, id, ".dict", dict, dl); id++; printf("FDICT\t%ld\t%d\t%s\n", i, t, feat); }
+                    ZSTD_freeCCtx(c); } }
+            ZSTD_freeDDict(dd); ZSTD_freeCDict(cd); }
+        free(content); free(dict);
     }
     printf("GEN\t%ld\n", id);
 }
